@@ -17,7 +17,7 @@ ASSUMPTIONS = ['reference model ref_tree.py (depth sequence, not a context stack
                'implicit-name parents outside the statement table (colgroup/audio/video/object/map) and snippet names that change the element are not used',
                'outparse.tag_stream reads the output: names exclude < > and blanks']
 BOUNDS = {'quick': {'n': 4, 'variants': 4, 'sample_n': 5, 'stride': 16, 'random': 500},
-          'thorough': {'n': 5, 'variants': 6, 'sample_n': 6, 'stride': 400, 'random': 20000}}
+          'thorough': {'n': 5, 'variants': 6, 'sample_n': 6, 'stride': 26, 'random': 20000}}
 FLOORS = {'quick': {'enum': 110000, 'enum-sampled': 10000, 'random': 8000}, 'thorough': {'enum': 4000000, 'enum-sampled': 150000, 'random': 250000}}
 REQUIRED_MONITORS = ['oracle:tag-stream', 'oracle:ast']
 
@@ -204,11 +204,11 @@ def run_shard(desc, ctx):
                 run_one(mon, tokens, rng, v, idx + v, 'enum')
         idx = 0
         off = desc['seed'] % desc['stride']
-        for tokens in ref_tree.skeletons(desc['sample_n'], 1 if desc['sample_n'] >= 6 else 2, climbs=(1, 2)):
+        for tokens in ref_tree.skeletons(desc['sample_n'], 2, climbs=(1, 2)):
             if sum(1 for t in tokens if t == 'E') != desc['sample_n']:
                 continue
             idx += 1
-            if idx % nparts != part or (idx // nparts) % desc['stride'] != off:
+            if idx % nparts != part or (idx // nparts) % desc['stride'] != off % desc['stride']:
                 continue
             rng = random.Random(core.h64('C01s/%d/%d' % (desc['seed'], idx)))
             run_one(mon, tokens, rng, 1 + idx % 3, idx, 'enum-sampled')
